@@ -346,7 +346,7 @@ def check(tier):
             evaluations=tot["tx"] + tot["logs"] + tot["q"] + tot["imports"] + tot["crashes"],
             distinct_nontrivial=distinct, trace_lines=tot["lines"],
             transitions_judged=tot["tx"], records_created=tot["rec"], store_scans=tot["logs"],
-            queries_judged=tot["q"], imports_judged=tot["imports"], crash_points=tot["crashes"],
+            queries_judged=tot["q"], overlapping_queries_judged=tot.get("overlaps", 0), imports_judged=tot["imports"], crash_points=tot["crashes"],
             match_classes=dict(must=tot["must"], must_not=tot["mustnot"], either_reading=tot["either"]),
             violations_by_signature={k: v for k, v in sorted(nviol.items())},
             skipped_ambiguous_human_time=ambig,
